@@ -1041,7 +1041,7 @@ func main() {
 		{Name: "chain", Quick: 6000, Thorough: 150000, Run: runChain},
 		{Name: "files", Quick: 2600, Thorough: 52000, Run: runFiles},
 		// the same round trip through the command `goalign reformat` (cli.go): one process per case
-		{Name: "cli", Quick: 270, Thorough: 6300, Run: runCli}, // 6 (140 at the thorough tier) rounds over 5 sub commands x 9 input modes
+		{Name: "cli", Quick: 270, Thorough: 6300, Run: runCli},                // 6 (140 at the thorough tier) rounds over 5 sub commands x 9 input modes
 		{Name: "cli-refused", Quick: 108, Thorough: 1440, Run: runCliRefused}, // 36 kinds of refused input x 3 (all 4 at the thorough tier) sub commands
 	})
 }
